@@ -1,0 +1,6 @@
+//go:build !verif
+// +build !verif
+
+package runner
+
+func verifAt(point string, args ...interface{}) {}
